@@ -6,11 +6,14 @@ C07 — member names are legal identifiers; wire names are preserved.
 Only property theorems live here; helper lemmas are in Dcg/Proofs/Names.lean.
 
 Reading guide. `E : Env` are `str.lower`/`str.upper` (parameters; `CaseOK E` says they map an identifier
-that does not start with `_` to such an identifier — proved below for CPython's maps as generated,
-`python_case_maps_ok`).
+to an identifier, and one that does not start with `_` to one that does not start with `_` — proved below for
+CPython's maps as generated, `python_case_maps_ok`).
 `k` selects the resolver class, `cfg` its options, `ign`/`uc` the flags `ignore_snake_case_field` /
-`upper_camel`. `PrefixOK cfg`: `special_field_name_prefix` is a non-empty identifier not starting
-with `_` (the default "field" is). The character classes, keywords and pydantic's reserved names are
+`upper_camel`. `PrefixStart cfg` (Dcg/Model/Names) is the guard of the constructor:
+`f"{special_field_name_prefix}_".isidentifier()`, i.e. the prefix is empty or an identifier (a leading `_`
+allowed) — EVERY resolver object that exists satisfies it (`constructor_admits_iff`). `PrefixOK cfg` is the
+stronger: a non-empty identifier not starting with `_` (the default "field" is); only the clauses about a
+leading underscore need it. The character classes, keywords and pydantic's reserved names are
 the generated tables; every fact used about them is a kernel-evaluated lemma of Dcg/Proofs/Names.
 -/
 namespace Dcg.Props.C07
@@ -18,20 +21,70 @@ open Dcg.Py.Chars Dcg.Py.Ident Dcg.Model.Names Dcg.Proofs.Names Dcg.Gen.Unicode
 
 /-! ### termination of the retry loop -/
 
-/-- FULL STRENGTH, all strings, all option vectors with a legal prefix, all three resolvers:
-`get_valid_name` returns after at most `|excludes| + 2` evaluations of the loop condition
-(the enum resolver adds its own reserved names to the excludes first). -/
+/-- FULL STRENGTH, all strings, all three resolvers, EVERY option vector the constructor admits
+(`PrefixStart`: the empty prefix and prefixes that start with `_` included — the hypothesis is the
+constructor's own guard, not a restriction of the statement): `get_valid_name` returns after at most
+`|excludes| + 2` evaluations of the loop condition (the enum resolver adds its own reserved names to the
+excludes first). -/
 theorem retry_terminates (E : Env) (k : Kind) (cfg : Cfg) (name : List Char) (excl : List (List Char))
-    (ign uc : Bool) (hp : PrefixOK cfg) (hE : CaseOK E) :
+    (ign uc : Bool) (hp : PrefixStart cfg) (hE : CaseOK E) :
     getValidName E k cfg name excl ign uc ≠ .outOfFuel := by
   unfold getValidName getValidNameF getValidNameBaseF
   split
   · split
     · intro h; cases h
     · rename_i hne
-      exact retry_terminates_good (good_body hp hE k ign (by simpa using hne) (sanitize_all_idCont _)) _ _ _ _
+      exact retry_terminates_good (ident_body hp hE k ign (by simpa using hne) (sanitize_all_idCont _)) _ _ _ _
   · rename_i h; exact absurd h (stage1_ne_outOfFuel _ _ _ _)
   · intro h; cases h
+
+/-- The constructor (`FieldNameResolver.__init__`, all three classes) admits an option vector exactly when
+`PrefixStart` holds, and then stores it unchanged… -/
+theorem constructor_admits_iff (cfg : Cfg) : construct cfg = some cfg ↔ PrefixStart cfg := by
+  unfold construct
+  constructor
+  · intro h; split at h
+    · assumption
+    · cases h
+  · intro h; rw [if_pos h]
+
+/-- …and REJECTS every other one: it raises, so no resolver object exists on which `get_valid_name` could be
+called. This replaces the former refutation `retry_diverges_without_prefixOK` (finding D22, repaired): the
+prefixes for which the loop would not end — `"9"`, `"a-b"` — are exactly among those refused here. -/
+theorem constructor_rejects_bad_prefix (cfg : Cfg) (h : ¬ PrefixStart cfg) : construct cfg = none := by
+  unfold construct; rw [if_neg h]
+
+/-- what the guard means: the prefix is empty or an identifier -/
+theorem prefixStart_characterised (cfg : Cfg) :
+    PrefixStart cfg ↔ cfg.pfx = [] ∨ isIdentifier cfg.pfx = true := prefixStart_iff cfg
+
+/-- FULL STRENGTH WITHOUT ANY HYPOTHESIS ON THE OPTIONS: constructing a resolver from an arbitrary option
+vector and calling `get_valid_name` never hangs — the constructor raises, or the call returns / raises. -/
+theorem resolver_never_hangs (E : Env) (k : Kind) (cfg : Cfg) (name : List Char) (excl : List (List Char))
+    (ign uc : Bool) (hE : CaseOK E) : newAndGetValidName E k cfg name excl ign uc ≠ .outOfFuel := by
+  unfold newAndGetValidName
+  cases hc : construct cfg with
+  | none => intro h; cases h
+  | some c =>
+    have hcc : c = cfg := by
+      unfold construct at hc; split at hc
+      · cases hc; rfl
+      · cases hc
+    subst hcc
+    exact retry_terminates E k c name excl ign uc ((constructor_admits_iff c).mp hc) hE
+
+/-- non-vacuity of both directions: the default, the empty prefix, `_` and `_x` are admitted; `9`, `a-b` and a
+blank are refused; the formerly diverging call now ends with the constructor's error -/
+example : PrefixStart {} ∧ PrefixStart { pfx := [] } ∧ PrefixStart { pfx := ['_'] } ∧
+    PrefixStart { pfx := ['_', 'x'] } := by decide +kernel
+example : ¬ PrefixStart { pfx := ['9'] } ∧ ¬ PrefixStart { pfx := ['a', '-', 'b'] } ∧
+    ¬ PrefixStart { pfx := [' '] } := by decide +kernel
+example : construct { pfx := ['9'] } = none := constructor_rejects_bad_prefix _ (by decide +kernel)
+example : newAndGetValidName pyEnv .base { pfx := ['9'] } ['1'] [] false false = .error := by decide +kernel
+example : newAndGetValidName pyEnv .base { pfx := ['_', 'x'] } ['1'] [] false false
+    = .ok ['_', 'x', '_', 'x', '_', '1'] := by decide +kernel
+/-- the stronger hypothesis implies the guard -/
+example (cfg : Cfg) (hp : PrefixOK cfg) : PrefixStart cfg := prefixStart_of_prefixOK hp
 
 /-- The hypothesis `CaseOK` holds for CPython's own `str.lower` / `str.upper` as regenerated from the
 interpreter (character-wise maps of Dcg/Gen/Unicode): every run of the case tables keeps XID_Start and
@@ -51,48 +104,28 @@ example (name : List Char) (excl : List (List Char)) :
   retry_terminates _ _ _ _ _ _ _ (by decide +kernel) python_case_maps_ok
 example : getValidName asciiEnv .enum { capitalise := true } "fooBar baz".toList [] false false ≠ .outOfFuel :=
   retry_terminates _ _ _ _ _ _ _ (by decide +kernel) caseOK_asciiEnv
-
-/-- `PrefixOK` cannot be dropped: with `special_field_name_prefix = "9"` the name `"1"` makes the real
-loop run forever (every candidate `9_9_1_k` is a non-identifier) — known finding D22. -/
-theorem retry_diverges_without_prefixOK (fuel : Nat) :
-    getValidNameF fuel pyEnv .base { pfx := ['9'] } ['1'] [] false false = .outOfFuel := by
-  have hb : body pyEnv .base { pfx := ['9'] } false (sanitize ['1']) = ['9', '_', '9', '_', '1'] := by
-    decide +kernel
-  have hs : sanitize ['1'] = ['1'] := by decide +kernel
-  have h9 : isIdStart '9' = false := by decide +kernel
-  have hloop : ∀ fuel count new, isIdentifier new = false →
-      retry .base [] ['9', '_', '9', '_', '1'] false fuel count new = .outOfFuel := by
-    intro fuel
-    induction fuel with
-    | zero => intros; rfl
-    | succ fuel ih =>
-      intro count new hn
-      rw [retry]
-      have : bad .base [] new = true := by simp [bad, hn, validate]
-      rw [if_pos this]
-      apply ih
-      simp [cand, isIdentifier, h9]
-  unfold getValidNameF getValidNameBaseF
-  have h1 : stage1 pyEnv { pfx := ['9'] } false (effName .base ['1']) = .ok ['1'] := by decide +kernel
-  rw [h1]
-  simp only [hs]
-  rw [hs] at hb
-  rw [hb]
-  apply hloop
-  simp [firstName, isIdentifier, h9]
+/-- …and on the prefixes `PrefixOK` excludes: empty with `remove_special_field_name_prefix`, leading `_` under
+snake case -/
+example (name : List Char) (excl : List (List Char)) :
+    getValidName pyEnv .enum { pfx := [], removePrefix := true } name excl false false ≠ .outOfFuel :=
+  retry_terminates _ _ _ _ _ _ _ (by decide +kernel) python_case_maps_ok
+example (name : List Char) (excl : List (List Char)) (uc : Bool) :
+    getValidName pyEnv .pydantic { pfx := ['_', 'X'], snakeCase := true } name excl false uc ≠ .outOfFuel :=
+  retry_terminates _ _ _ _ _ _ _ (by decide +kernel) python_case_maps_ok
 
 /-! ### legality of the result -/
 
-/-- FULL STRENGTH: whatever `get_valid_name` returns is an identifier, is not a keyword, is none of
-the excluded names, and (enum resolver) is none of the names the resolver reserves by itself
-(`Dcg.Gen.EnumSites.resolverExcludes`, read off `EnumFieldNameResolver.get_valid_name`). -/
+/-- FULL STRENGTH, for every option vector the constructor admits (`PrefixStart`): whatever `get_valid_name`
+returns is an identifier, is not a keyword, is none of the excluded names, and (enum resolver) is none of the
+names the resolver reserves by itself (`Dcg.Gen.EnumSites.resolverExcludes`, read off
+`EnumFieldNameResolver.get_valid_name`). -/
 theorem result_legal (E : Env) (k : Kind) (cfg : Cfg) (name : List Char) (excl : List (List Char))
-    (ign uc : Bool) (hp : PrefixOK cfg) (hE : CaseOK E) (r : List Char)
+    (ign uc : Bool) (hp : PrefixStart cfg) (hE : CaseOK E) (r : List Char)
     (h : getValidName E k cfg name excl ign uc = .ok r) :
     isIdentifier r = true ∧ isKeyword r = false ∧ r ∉ excl ∧
       (k = .enum → ∀ x ∈ Dcg.Gen.EnumSites.resolverExcludes, r ≠ x) := by
   obtain ⟨s, hne, hs, hb, hr⟩ := result_shape h
-  have hgood := good_body hp hE k ign hne hs
+  have hgood := ident_body hp hE k ign hne hs
   simp only [bad, Bool.or_eq_false_iff, Bool.not_eq_eq_eq_not, Bool.not_false] at hb
   obtain ⟨⟨hid, hkw⟩, hex⟩ := hb
   have hnotin : r ∉ effExcl k excl := by simpa using hex
@@ -105,7 +138,7 @@ theorem result_legal (E : Env) (k : Kind) (cfg : Cfg) (name : List Char) (excl :
         cases k <;> simp only [validate] at hv <;> try cases hv
         have : r ∈ pydReserved := by simpa [isPydReserved] using hv
         exact List.all_eq_true.mp reserved_identifier _ this
-    · rw [hr]; exact (good_cand hgood uc j).1
+    · rw [hr]; exact ident_cand hgood uc j
   · intro hin
     apply hnotin
     unfold effExcl; split
@@ -123,7 +156,7 @@ excludes the caller passes — the name returned by the enum resolver is not `mr
 EVERY call site of the enum resolver is the obligation `enum_call_sites_reviewed` of Props/C09 (the initial
 excludes of each caller are read off the source). -/
 theorem enum_member_never_mro (E : Env) (cfg : Cfg) (name : List Char) (excl : List (List Char))
-    (ign uc : Bool) (hp : PrefixOK cfg) (hE : CaseOK E) (r : List Char)
+    (ign uc : Bool) (hp : PrefixStart cfg) (hE : CaseOK E) (r : List Char)
     (hres : mro ∈ Dcg.Gen.EnumSites.resolverExcludes ++ excl)
     (h : getValidName E .enum cfg name excl ign uc = .ok r) : r ≠ mro := by
   have hl := result_legal E .enum cfg name excl ign uc hp hE r h
@@ -136,6 +169,14 @@ theorem enum_member_never_mro (E : Env) (cfg : Cfg) (name : List Char) (excl : L
 example : mro ∈ Dcg.Gen.EnumSites.resolverExcludes ++ [mro] ∧
     getValidName pyEnv .enum { snakeCase := true } ['M', 'R', 'O'] [mro] false false = .ok ['m', 'r', 'o', '_', '1'] := by
   decide +kernel
+
+/-- non-vacuity of `result_legal` beyond `PrefixOK`: the empty prefix with `remove_special_field_name_prefix`
+(`_1` is stripped to `1`, re-prefixed to `_1`, which is excluded, so the loop numbers it), and the prefix `_`
+(`__1` is stripped to `1` and re-prefixed to `__1`) -/
+example : getValidName pyEnv .base { pfx := [], removePrefix := true } ['_', '1'] [['_', '1']] false false
+    = .ok ['_', '1', '_', '1'] := by decide +kernel
+example : getValidName pyEnv .pydantic { pfx := ['_'], removePrefix := true } ['_', '_', '1'] [] false false
+    = .ok ['_', '_', '1'] := by decide +kernel
 
 /-- non-vacuity and a sanity check on a nasty input: `"___"` with `remove_special_field_name_prefix`
 (formerly defect D2: the code returned `_1`) -/
@@ -166,11 +207,12 @@ theorem result_no_leading_underscore (E : Env) (k : Kind) (cfg : Cfg) (name : Li
   · simp only [firstName, Bool.false_eq_true, if_false] at hr
     rw [hr]
     split
-    · exact (hE.2 _ hgood.1 hgood.2).2
+    · exact (hE.2 _ hgood.1).2 hgood.2
     · exact hgood.2
   · rw [hr]; exact (good_cand hgood false j).2
 
-/-- `PrefixOK` is needed for the underscore clause: with an empty prefix `"1"` becomes `_1` -/
+/-- `PrefixOK` is needed for the underscore clause (`PrefixStart`, the constructor's guard, is not enough):
+with an empty prefix `"1"` becomes `_1` -/
 theorem leading_underscore_without_prefixOK :
     getValidName pyEnv .pydantic { pfx := [] } ['1'] [] false false = .ok ['_', '1'] := by
   decide +kernel
